@@ -1,0 +1,43 @@
+#
+# Verification instrumentation (add-only). Disabled unless the environment variable
+# XMLSCHEMA_VERIF_TRACE is set to '1' when the package is imported: with the guard
+# off every hook site is a single module attribute test.
+#
+import os
+import threading
+from typing import Any, Optional
+
+ENABLED = os.environ.get('XMLSCHEMA_VERIF_TRACE') == '1'
+
+_lock = threading.Lock()
+_seq = 0
+_sink: Optional[list[dict[str, Any]]] = None
+
+
+def start() -> list[dict[str, Any]]:
+    """Start recording events into a new in-memory list and return it."""
+    global _sink, _seq
+    with _lock:
+        _sink = []
+        _seq = 0
+        return _sink
+
+
+def stop() -> None:
+    global _sink
+    with _lock:
+        _sink = None
+
+
+def emit(event: str, **fields: Any) -> None:
+    """Append one event (with a process-wide sequence number and the thread id)."""
+    global _seq
+    sink = _sink
+    if sink is None:
+        return
+    with _lock:
+        _seq += 1
+        fields['ev'] = event
+        fields['seq'] = _seq
+        fields['tid'] = threading.get_ident()
+        sink.append(fields)
